@@ -251,6 +251,15 @@ func (s *DisabledExp) makeDisabledExp(disable, inner Exp) (Exp, error) {
 				Disabled: disable,
 				Value:    inner,
 			}, nil
+		case *SplitExp:
+			// An element of an element of a run-time collection.
+			if s != nil && s.Disabled == disable && s.Value == inner {
+				return s, nil
+			}
+			return &DisabledExp{
+				Disabled: disable,
+				Value:    inner,
+			}, nil
 		}
 	}
 	return s.orInner(inner), &IncompatibleTypeError{
